@@ -1,5 +1,5 @@
-\* thorough: 1-D {0..4}, all sequences of 1..7 points, ascending order, eps = 1, minPts = 2 (one of four partitions run in parallel)
-CONSTANTS W = 5  H = 0  MaxN = 7  EpsSet = {1}  MinPtsSet = {2}
+\* thorough: 1-D {0..4}, all sequences of 1..7 points, ascending order, eps = 1, minPts = 4 (one of four partitions run side by side; eps=1/minPts=4 contains the 7-point 'border row between two clusters' configurations)
+CONSTANTS W = 5  H = 0  MaxN = 7  EpsSet = {1}  MinPtsSet = {4}
           Key = "man"  Order = "asc"  Emit = FALSE
 SPECIFICATION Spec
 INVARIANT ModelSatisfiesProperty
